@@ -138,6 +138,9 @@ func preCheckDecide(c *core.Ctx, fn *ssa.Function, a, b ssa.Instruction) *preChe
 	if P == nil || !an.PrivateHelper(P) || P.Signature.Recv() == nil || P.Signature.Results().Len() != 1 || len(call.Call.Args) == 0 || an.PathOf(call.Call.Args[0]) != "recv" {
 		return nil
 	}
+	if pc := repeatedDecision(c, fn, call, P, b, inline); pc != nil {
+		return pc
+	}
 	if P.Signature.Results().At(0).Type().String() != "bool" {
 		return nil
 	}
@@ -516,4 +519,157 @@ func helperVerdict(v ssa.Value, spliced map[*ssa.Call]bool) bool {
 		n++
 	}
 	return n > 0
+}
+
+// repeatedDecision: the pre-check and the write-locked section ask the SAME private decision function
+// with the same arguments — `if err := c.refusalNeedLock(k, ev); err != nil { return err }; c.mu.Lock();
+// …; if err := c.refusal(k, ev); err != nil { return err }` with refusalNeedLock = RLock + refusal — and
+// both turn away on its answer before anything is changed. Whatever that function decides (a bool or an
+// error, nil = go on), the decision that allows the operation is taken again in the critical section that
+// performs it; the first one only rejects what the second would reject in the same state. nil when the
+// code does not have that shape (the condition-by-condition comparison decides then).
+func repeatedDecision(c *core.Ctx, fn *ssa.Function, call *ssa.Call, P *ssa.Function, b ssa.Instruction, inline bool) *preCheck {
+	// the decision function: P itself when the section is written out, else the one module call P makes
+	// under its read lock, handed P's own parameters, its answer handed back unchanged
+	F, fArgs := P, call.Call.Args
+	if !inline {
+		var inner *ssa.Call
+		for _, ci := range calls(P) {
+			x, isCall := ci.(*ssa.Call)
+			n := an.CalleeName(ci.Common())
+			if strings.HasPrefix(n, "(*sync.") {
+				if n != "(*sync.RWMutex).RLock" && n != "(*sync.RWMutex).RUnlock" {
+					return nil
+				}
+				continue
+			}
+			if !isCall || inner != nil {
+				return nil
+			}
+			inner = x
+		}
+		if inner == nil {
+			return nil
+		}
+		g := an.StaticCallee(&inner.Call)
+		if g == nil || !an.PrivateHelper(g) || len(inner.Call.Args) != len(P.Params) {
+			return nil
+		}
+		for i, a := range inner.Call.Args {
+			if a != ssa.Value(P.Params[i]) {
+				return nil
+			}
+		}
+		for _, rb := range an.ReturnBlocks(P) {
+			rv := an.ReturnValues(an.LastInstr(rb).(*ssa.Return))
+			if len(rv) != 1 || (rv[0] != ssa.Value(inner) && blockLocal(rv[0]) != ssa.Value(inner)) {
+				return nil
+			}
+		}
+		F = g
+	}
+	// how an answer turns the operation away: the branch on it whose one side returns at once
+	turnsAway := func(x *ssa.Call) (*ssa.BasicBlock, bool) {
+		if x.Referrers() == nil {
+			return nil, false
+		}
+		for _, r := range *x.Referrers() {
+			var iff *ssa.If
+			switch y := r.(type) {
+			case *ssa.If:
+				iff = y
+			case *ssa.BinOp:
+				if an.IsNilConst(y.Y) && (y.Op == token.NEQ || y.Op == token.EQL) && y.Referrers() != nil {
+					for _, r2 := range *y.Referrers() {
+						if i2, isIf := r2.(*ssa.If); isIf {
+							iff = i2
+						}
+					}
+				}
+			case *ssa.UnOp:
+				if y.Op == token.NOT && y.Referrers() != nil {
+					for _, r2 := range *y.Referrers() {
+						if i2, isIf := r2.(*ssa.If); isIf {
+							iff = i2
+						}
+					}
+				}
+			}
+			if iff == nil {
+				continue
+			}
+			for _, sb := range iff.Block().Succs {
+				if _, isRet := an.LastInstr(sb).(*ssa.Return); isRet && len(sb.Instrs) <= 4 {
+					return sb, true
+				}
+			}
+		}
+		return nil, false
+	}
+	rej, ok := turnsAway(call)
+	if !ok {
+		return nil
+	}
+	// the same question asked again behind b, before anything is changed
+	var second *ssa.Call
+	after := false
+	for _, in := range b.Block().Instrs {
+		if in == b {
+			after = true
+			continue
+		}
+		if !after {
+			continue
+		}
+		switch x := in.(type) {
+		case *ssa.Call:
+			if g := an.StaticCallee(&x.Call); g != nil && sameFunc(g, F) && second == nil {
+				second = x
+				continue
+			}
+			if second == nil {
+				return nil // something else happens first
+			}
+		case *ssa.Store, *ssa.MapUpdate, *ssa.Send:
+			if second == nil {
+				if st, isSt := x.(*ssa.Store); isSt {
+					if _, local := st.Addr.(*ssa.Alloc); local {
+						continue
+					}
+				}
+				return nil
+			}
+		}
+	}
+	if second == nil || len(second.Call.Args) != len(fArgs) {
+		return nil
+	}
+	for i := range fArgs {
+		if an.PathOf(second.Call.Args[i]) != an.PathOf(fArgs[i]) {
+			return nil
+		}
+	}
+	if _, ok2 := turnsAway(second); !ok2 {
+		return nil
+	}
+	pc := &preCheck{call: call, reject: rej}
+	// the first section: shared mode only, no guarded write
+	for _, g := range an.RefClosure([]*ssa.Function{P}, func(f *ssa.Function) bool {
+		return c.P.InModule(f) && (f == P || f.Parent() != nil || an.PrivateHelper(f))
+	}) {
+		for _, ci := range calls(g) {
+			switch an.CalleeName(ci.Common()) {
+			case "(*sync.RWMutex).Lock", "(*sync.Mutex).Lock":
+				pc.why = "the first section takes the lock exclusively"
+				return pc
+			}
+		}
+		for _, acc := range guardedAccesses(c, g) {
+			if acc.write && !freshBase(acc.fa) {
+				pc.why = "the first section writes guarded state (" + acc.field + " in " + fname(c, g) + ")"
+				return pc
+			}
+		}
+	}
+	return pc
 }
